@@ -447,7 +447,11 @@ def run(ctx):
     starts = sorted(start_specs())
     tasks = [dict(s0=s, depth=depth + (1 if ctx.quick else 0), tier=ctx.tier) for s in starts]
     # the same search without merging states (every filter sequence up to the depth is executed as such) from a few start datasets
-    tasks += [dict(s0=s, depth=2 if ctx.quick else 3, tier=ctx.tier, unmerged=True) for s in starts[:: (4 if ctx.quick else 3)]]
+    # (a filter that returns "the same" dataset - nothing cut off, nothing removed - leads back to a state already seen, so only the unmerged
+    #  search runs a further step on ITS result)
+    tasks += [dict(s0=s, depth=2, tier=ctx.tier, unmerged=True) for s in starts]
+    if not ctx.quick:
+        tasks += [dict(s0=s, depth=3, tier=ctx.tier, unmerged=True) for s in starts[::3]]
     ctx.pmap("mzcheck.checks.c08", "task", tasks)
     cfg_tasks = []
     gens = [("gen_dfs", {}, 42), ("gen_dfs", dict(do_forks=False), 7), ("gen_percolation", dict(p=0.5), 3), ("gen_dfs_percolation", dict(p=0.2), 5)]
@@ -459,9 +463,9 @@ def run(ctx):
     c = ctx.res.counters
     ctx.coverage.update(states=c.get("states", 0), transitions=c.get("transitions", 0),
                         traces_validated_against_impl=c.get("transitions", 0) + ctx.res.evaluations,
-                        depth=depth + (1 if ctx.quick else 0), unmerged_depth=2 if ctx.quick else 3, unmerged_starts=starts[:: (4 if ctx.quick else 3)], start_datasets=starts, per_start=sorted(ctx.res.sets.get("per_start", ())))
+                        depth=depth + (1 if ctx.quick else 0), unmerged_depth="2 from every start" + ("" if ctx.quick else ", 3 from every 3rd"), start_datasets=starts, per_start=sorted(ctx.res.sets.get("per_start", ())))
     ctx.rule = ("BFS over filter sequences (alphabet: all built-in filters with boundary arguments + custom predicates) from crafted start datasets, "
-                "states de-duplicated by (mazes in order, metadata presence), and from every 4th (3rd) start dataset again without merging (every sequence up to depth 2 (3) as such); every transition judged against the reference model; "
+                "states de-duplicated by (mazes in order, metadata presence), and again without merging from every start dataset (every sequence of 2 filters as such; thorough: of 3 from every 3rd start); every transition judged against the reference model; "
                 "non-trivial = transitions whose expected result is a proper non-empty subset")
     ctx.exhaustive = True
     ctx.assumptions += ["state key drops the append-only applied_filters log (checked on every transition instead)",
